@@ -25,6 +25,9 @@ pub fn adj_ext_spy(params: &Params, _t: &TopAstroDay, _w: Weather) -> VMap<Praye
     }
     h
 }
+fn eq3(a: [u64; 3], b: [u64; 3]) -> bool {
+    a[0] == b[0] && a[1] == b[1] && a[2] == b[2]
+}
 pub static mut HTT: (u64, u64, u8) = (0, 0, 0);
 /// hour_to_time replaced by a spy: records (hour, minutes[Fajr] of the params it was given, key)
 pub fn hour_to_time_spy(params: &Params, prayer: Prayer, hour: f64) -> chrono::NaiveTime {
@@ -56,11 +59,11 @@ pub fn c12_imsaak_branches() {
     // first computation: exactly one field of the parameters is changed, per branch
     if fi != 0. {
         let add = if ii == 0. { 1.5 } else { ii };
-        assert!(s0 == [(fi + add).to_bits(), fm.to_bits(), fa.to_bits()], "C12 interval-defined Fajr: Imsaak is computed with the Fajr interval lengthened by the Imsaak interval (1.5 by default)");
+        assert!(eq3(s0, [(fi + add).to_bits(), fm.to_bits(), fa.to_bits()]), "C12 interval-defined Fajr: Imsaak is computed with the Fajr interval lengthened by the Imsaak interval (1.5 by default)");
     } else if ii != 0. {
-        assert!(s0 == [fi.to_bits(), (fm - ii).to_bits(), fa.to_bits()], "C12 Imsaak interval: Imsaak is Fajr with its minute offset reduced by the interval");
+        assert!(eq3(s0, [fi.to_bits(), (fm - ii).to_bits(), fa.to_bits()]), "C12 Imsaak interval: Imsaak is Fajr with its minute offset reduced by the interval");
     } else {
-        assert!(s0 == [fi.to_bits(), fm.to_bits(), (fa + ia).to_bits()], "C03/C12 Imsaak is Fajr computed with the Imsaak angle added to the Fajr angle");
+        assert!(eq3(s0, [fi.to_bits(), fm.to_bits(), (fa + ia).to_bits()]), "C03/C12 Imsaak is Fajr computed with the Imsaak angle added to the Fajr angle");
     }
     let (ok0, v0, ext0) = unsafe { RET[0] };
     if ok0 && ext0 {
@@ -68,12 +71,12 @@ pub fn c12_imsaak_branches() {
         let sub = if ii == 0. { 1.5 } else { ii };
         assert!(calls == 2, "C12 an extreme Fajr triggers exactly one recomputation");
         let s1 = unsafe { SEEN[1] };
-        assert!(s1 == [fi.to_bits(), (fm - sub).to_bits(), fa.to_bits()], "C12 extreme Fajr: Imsaak is that Fajr minus 1.5 min (or the Imsaak interval), all other parameters original");
+        assert!(eq3(s1, [fi.to_bits(), (fm - sub).to_bits(), fa.to_bits()]), "C12 extreme Fajr: Imsaak is that Fajr minus 1.5 min (or the Imsaak interval), all other parameters original");
         let (ok1, v1, ext1) = unsafe { RET[1] };
         match r {
             Ok(pt) => {
                 assert!(ok1 && pt.extreme == ext1, "C12 Imsaak carries the extreme flag of the Fajr it was derived from");
-                assert!(unsafe { HTT } == (v1, (fm - sub).to_bits(), Prayer::Fajr as u8), "C11/C12 Imsaak is rendered with the Fajr key and the adjusted offset");
+                assert!(unsafe { HTT.0 == v1 && HTT.1 == (fm - sub).to_bits() && HTT.2 == Prayer::Fajr as u8 }, "C11/C12 Imsaak is rendered with the Fajr key and the adjusted offset");
             }
             Err(()) => assert!(!ok1, "C12 Imsaak is invalid only if the derived Fajr is"),
         }
